@@ -86,6 +86,13 @@ pub fn gen(ctx: &Ctx, rng: &mut Rng, out: &mut Vec<String>) {
             out.push(format!("c13.viewtext\t{}\t{}\t{}\t{p}", nats(&shape), bits(&data), enc(&o)));
         }
     }
+    // text with 16-18 significant digits and whole numbers beyond 2^40 handed from one `view` to the next (text -> npy -> text at the same
+    // precision reproduces the text; `view` of such text prints it back)
+    for (i, p) in [17usize, 16, 18, 6, 9].into_iter().enumerate() {
+        let data = vec![0.23333333333333334f64, 0.18888888888888888, 0.1, 0.7, 1000000000001.0, 600000000007.0, 0.30000000000000004, 9007199254740993.0, 4503599627370497.5, 123456789.12345679];
+        out.push(format!("io.t2n2t\t2,5\t{}\t{p}", bits(&data)));
+        if i < 3 { out.push(format!("io.textrt\t10\t{}\t{p}", bits(&data))); }
+    }
     // normalisation (and masking + normalisation) of spectra with more than 2^16 entries, as npy
     for (i, shape) in [vec![257usize, 257], vec![65537], vec![100001]].into_iter().enumerate() {
         if !ctx.tier_thorough && i == 2 { continue; }
